@@ -475,6 +475,53 @@ Definition linked_message (m : message) : bool :=
   end.
 End Linked.
 
+(* ---------- rebuilding a message tree from the shape parse_message produced ----------
+   (the group search itself is Model/Groups.v's subject; here the nesting is an input and the
+   elements are created as parser.parse_segments creates them: a Segment with the reference its
+   name has in the enclosing structure - or with no reference when the structure does not list it -
+   and a Group with the reference of its row) *)
+Inductive shape := ShSeg (text : str) | ShGrp (name : str) (kids : list shape).
+
+Section Build.
+Variable t : tables.
+Variable lvl : level.
+Variable e : ec.
+Variable lenc : option str -> str -> result str.
+
+Fixpoint build_node (parent : option structure) (sh : shape) {struct sh} : result node :=
+  match sh with
+  | ShSeg text =>
+      do s <- parse_segment t lvl e lenc text (ref_in parent (seg_name_of text));
+      Ok (NSeg s)
+  | ShGrp name kids =>
+      do st <- structure_for t GRP (upper name) (ref_in parent name);
+      do ks <- (fix go (l : list shape) : result (list node) :=
+                  match l with
+                  | [] => Ok []
+                  | x :: r => do a <- build_node (Some st) x; do b <- go r; Ok (a :: b)
+                  end) kids;
+      Ok (NGrp (Some (upper name)) (Some st) ks)
+  end.
+
+Fixpoint build_nodes (parent : option structure) (l : list shape) : result (list node) :=
+  match l with
+  | [] => Ok []
+  | x :: r => do a <- build_node parent x; do b <- build_nodes parent r; Ok (a :: b)
+  end.
+
+(* Message(name) (None = the unnamed Message parse_message falls back to) with the given children *)
+Definition build_message (name : option str) (kids : list shape) : result message :=
+  do st <- match name with
+           | Some n => match slookup (upper n) (t_messages t) with
+                       | Some r => do s <- parse_structure t r; Ok (Some s)
+                       | None => Err (HL7 EInvalidName)
+                       end
+           | None => Ok None
+           end;
+  do ks <- build_nodes st kids;
+  Ok (mk_message (option_map upper name) st ks).
+End Build.
+
 (* ---------- entry points: Element.validate passes self.reference ---------- *)
 
 Definition lift_errors (r : result (list vmsg)) : result (list verr) :=
